@@ -449,7 +449,7 @@ func h6RandCfg(vt *vhT) h6Cfg {
 	pick := func(v ...int) int { return v[r.Intn(len(v))] }
 	c := h6Cfg{}
 	if r.Intn(3) != 0 { // otherwise: every default of the library
-		c.life = pick(0, 0, 60000, 100000, 120000, 1800000, 3600000, 5400000, 47000, 30000, 10000, 12000)
+		c.life = pick(0, 0, 60000, 100000, 120000, 1800000, 3600000, 5400000, 7200000, 10800000, 47000, 30000, 10000, 12000)
 		c.permT = pick(0, 0, 150011, 200011, 1000011, 100011, 130011, 138611)
 		c.chanT = pick(0, 0, 360013, 2000013, 348613, 340013, 100013)
 		c.permP = pick(0, 0, 40007, 120007)
@@ -529,6 +529,10 @@ func TestVerifH6(t *testing.T) {
 	runH6History(t, vt, h6Cfg{peers: 2}, "defaults-idle", 75*min, false, 0)
 	runH6History(t, vt, h6Cfg{peers: 1}, "defaults-busy", 65*min, true, 0)
 	runH6History(t, vt, h6Cfg{peers: 3, rf: []h6Pat{{6, 0, false}}, cp: []h6Pat{{0, 6, false}}, cb: []h6Pat{{3, 3, true}}}, "defaults-worst-loss", 130*min, false, 0)
+	// directed: a configured allocation lifetime above the one-hour maximum a client may ASK for: every Refresh asks for it and
+	// must be granted the configured value again (2 h and 3 h, across two refresh periods)
+	runH6History(t, vt, h6Cfg{life: 3 * 60 * min, peers: 1}, "life-3h", 5*60*min, false, 0)
+	runH6History(t, vt, h6Cfg{life: 2 * 60 * min}, "life-2h", 3*60*min+30*min, false, 0)
 	// directed: Close while the client's nonce is stale (no peers: nothing refreshes between 60 and 65 min)
 	runH6History(t, vt, h6Cfg{}, "close-stale-nonce", 0, false, 61*min+30000)
 	runH6History(t, vt, h6Cfg{}, "close-fresh-nonce", 0, false, 59*min)
